@@ -90,7 +90,8 @@ DefaultsFor(t) ==
       [] t.kind = "string" -> {"\"ab\"", "ab"}
       [] t.kind = "bool"   -> {"true"}
       [] t.kind = "list"   -> {"[]"}
-      [] t.kind \in {"map", "object", "ref", "scope"} -> {"{}"}
+      \* (a default on a property that refers back to its own object expands for ever: not a usable schema)
+      [] t.kind \in {"map", "object", "scope"} \/ (t.kind = "ref" /\ t.id # "A") -> {"{}"}
       [] OTHER -> {}
 PropVariants(t) ==
     LET b == P("p", t) IN
@@ -248,7 +249,8 @@ BaseOneI  == LET t == TOneOf("int", "t", FALSE, {Mem(N(1), RefB), Mem(N(2), ObjC
 BaseEnum  == Scope1(P("p", TMap(TStr0, TEnumS({EV(S("a"), Some(Dn))}, FALSE), Some(1), None, FALSE)), BFor(TInt0), "map", FALSE)
 BaseEnumI == Scope1(P("p", TEnumI({EV(N(1), Some(D0))}, Some(U1))), BFor(TInt0), "map", FALSE)
 BaseInner == Scope1(P("p", InnerScope), BFor(TInt0), "map", FALSE)
-BaseSmall == TScope("A", {KO("A", TObject("A", {[P("p", TRef("A", "", None)) EXCEPT !.default = Some("{}")]}, FALSE, "map"))})
+BaseSmall == TScope("A", {KO("A", TObject("A", {P("p", TRef("A", "", None)), [P("q", TBool) EXCEPT !.default = Some("true")]},
+                                           FALSE, "map"))})
 BaseTiny  == TScope("A", {KO("A", TObject("A", {P("p", TStr0)}, FALSE, "map"))})
 BaseFloat == Scope1(P("p", TFloat(Some(-3), Some(9), None)), BFor(TInt0), "map", FALSE)
 BaseSchema  == TSchema({KV("s1", Step("s1", BaseSmall, {KV("ok", Out(BaseSmall, Some(Dn), FALSE))},
